@@ -296,6 +296,65 @@ def checkVertical (old : LB) (n : Nat) (up : Bool) (pos : Nat) : Option String :
       if !boundaryB old.buf pos then none
       else if lineNo old.buf pos != want then some "vertical-wrong-line" else none
 
+/-! ### vertical motion: destination line and display column -/
+
+/-- display column of byte offset `p`: the display width of the text between the start of the line
+    containing `p` and `p`, plus the prompt width when that line is the first line (the prompt is
+    printed in front of the first line only).  0 when `p` is not a character boundary. -/
+def displayCol (U : UData) (buf : Text) (p promptCol : Nat) : Nat :=
+  let ls := lineStartOf buf p
+  match slice buf ls p with
+  | .ok cur => U.width cur + (if ls = 0 then promptCol else 0)
+  | .error _ => 0
+
+/-- the line a vertical motion by `n` lines goes to, as `(start, end)` (`end` = offset of its line
+    break, or the buffer end): the n-th line above / below the line containing `pos`, or the first /
+    last line when there are fewer; `none` when the cursor already is on the first / last line. -/
+def verticalDest (buf : Text) (pos n : Nat) (up : Bool) : Option (Nat × Nat) :=
+  if up then
+    if lineStartOf buf pos = 0 then none
+    else
+      let s := upStart buf n (lineStartOf buf pos)
+      some (s, lineEndOf buf s)
+  else
+    if lineEndOf buf pos ≥ blen buf then none
+    else
+      let e := downEnd buf n (lineEndOf buf pos)
+      some (lineStartOf buf e, e)
+
+/-- vertical motion keeps the display column: `none` = satisfied or not judged, else a reason.
+    Counts of 0 are not judged.  Without a destination line the cursor must not move.  Otherwise the
+    new cursor `pos` must be a cluster boundary of the destination line `[ds, de)` and either
+    * it has the display column the cursor had, or
+    * it is the end of the destination line and that line is too short to reach the column, or
+    * it is the start of the destination line and that start already lies right of the column
+      (only possible on the first line, which is shifted by the prompt).
+    When none of the three kinds of position exists (the column falls inside a wide cluster of the
+    destination line) the step is not judged. -/
+def checkVerticalCol (S : Segmenter) (U : UData) (old : LB) (n : Nat) (up : Bool) (promptCol pos : Nat) :
+    Option String :=
+  if n == 0 then none
+  else
+    match verticalDest old.buf old.pos n up with
+    | none => if pos != old.pos then some "vertical-moved-without-destination" else none
+    | some (ds, de) =>
+      match slice old.buf ds de with
+      | .error _ => none
+      | .ok line =>
+        let c := displayCol U old.buf old.pos promptCol
+        if !(bounds ds (S.seg line)).contains pos then some "vertical-off-cluster-boundary"
+        else if displayCol U old.buf pos promptCol == c then none
+        else if pos == de && displayCol U old.buf de promptCol < c then none
+        else if pos == ds && displayCol U old.buf ds promptCol > c then none
+        -- judged only when a right answer exists: a cluster boundary of the line at that column, or the
+        -- line is too short (its end), or it starts right of the column (its start); a column that
+        -- falls inside a wide cluster of the destination line is not judged
+        else if (bounds ds (S.seg line)).any (fun q => displayCol U old.buf q promptCol == c)
+            || displayCol U old.buf de promptCol < c || displayCol U old.buf ds promptCol > c then
+          some "vertical-wrong-column"
+        else none
+
+
 /-- `edit_word`: the next word (maximal run of alphanumeric clusters at or after the cursor) is
     replaced by its case-mapped form, nothing else changes, cursor after it -/
 def checkEditWord (S : Segmenter) (U : UData) (old : LB) (a : WordAction) (buf : Text) (pos : Nat) :
@@ -409,8 +468,8 @@ def c04Step (S : Segmenter) (U : UData) (old : LB) (op : Op) (o : Outcome) : Opt
       | .moveToNextWord a d n =>
         if n == 0 || (a == .beforeEnd && d == .emacs) then none
         else checkPos (wordTargetFwd S U b p a d n true) old pos
-      | .moveToLineUp n _ => checkVertical old n true pos
-      | .moveToLineDown n _ => checkVertical old n false pos
+      | .moveToLineUp n pc => (checkVertical old n true pos).orElse (fun _ => checkVerticalCol S U old n true pc pos)
+      | .moveToLineDown n pc => (checkVertical old n false pos).orElse (fun _ => checkVerticalCol S U old n false pc pos)
       | .moveTo cs n =>
         if n == 0 then none
         else match charSearchTarget S b p cs n with
